@@ -14,7 +14,7 @@ from harness import tlc, core
 from harness.tlc import tla
 
 ALL_LISTS = ['lin', 'pws', 'cvx', 'ip', 'other', 'bounds']
-SETS_QUICK = [set(), {'lin'}, {'p3'}, {'l2'}, {'l1'}, {'bd'}, {'ex'}, {'lin', 'p3'}]   # one item kind per list of the support model
+SETS_QUICK = [set(), {'lin'}, {'p3'}, {'l2'}, {'l1'}, {'bd'}, {'ex'}, {'xb'}, {'lin', 'p3'}]   # one item kind per list of the support model
 SETS_THOROUGH = SETS_QUICK + [{'l1', 'l2'}, {'p3', 'bd'}, {'ex', 'lin'}]
 INVS = ['NoSetLeak', 'SolutionCurrent', 'SolveUsesCurrent', 'CacheCoherent']
 PROPS = ['MisuseIsolated', 'Model2Isolated']
